@@ -471,3 +471,28 @@ def m8(ctx):
 
 
 RULES.append(m8)
+
+
+@rule("M9", doc="operator / shape comparison blanks out EVERY child: nullify_app_ids overwrites each applied-id occurrence with AppliedId::null(), unconditionally — a child left in place makes two nodes that differ only in their children look different (instances are missed) or, compared after a partial blanking, alike")
+def m9(ctx):
+    crate = ctx.lib()
+    bs = [b for b in crate.by_name.get("nullify_app_ids", []) if b.kind != "Closure" and (b.file or "").startswith("src/")]
+    if len(bs) != 1:
+        raise mir.AnchorMissing("nullify_app_ids")
+    b = mir.inline_view(crate, bs[0])
+    lps = [l for l in C.iterator_loops(b) if role_mentions_call(l[1], "applied_id_occurrences_mut")]
+    chains = C.adaptor_chains(b, "applied_id_occurrences_mut") if not lps else []
+    if not lps and not chains:
+        raise mir.AnchorMissing("the loop over applied_id_occurrences_mut() in nullify_app_ids")
+    for l in lps:
+        stores = [bi for bi, si, s in b.statements() if s["k"] == "assign" and s["lhs"]["p"] == ["*"] and bi in b.reach(l[3], avoid=l[2])
+                  and isinstance(strip_role(b.role_of_rvalue(s["rv"])), tuple) and strip_role(b.role_of_rvalue(s["rv"]))[0] == "call" and strip_role(b.role_of_rvalue(s["rv"]))[1] == "null"]
+        ok = C.loop_exhaustive(b, l) and bool(stores) and b.must_pass(l[3], [l[0]], set(stores))
+        ctx.check(ok, "nullify-every-child", "every child invocation is overwritten with AppliedId::null()", "nullify_app_ids can leave a child invocation in place (loop left early, or the overwrite sits behind a condition / writes something else)", where_of(b, l[0]))
+    for ch in chains:
+        names = [n for n, _ in ch["adaptors"]]
+        bad = sorted(n for n in names if n in BAD_ADAPTORS)
+        ctx.check(not bad, "nullify-every-child", "every child invocation is overwritten (chain %s)" % names, "nullify_app_ids drops children through %s" % bad, where_of(b, ch["sink"].bb))
+
+
+RULES.append(m9)
